@@ -1799,13 +1799,18 @@ void Interpreter::assign_array_element(const std::string &name, int64_t index,
                 }
             } else {
                 // int配列など整数型の場合
+                // N-D arrays keep their cells in multidim_array_values
+                std::vector<int64_t> &cells =
+                    (target_array->is_multidimensional &&
+                     !target_array->multidim_array_values.empty())
+                        ? target_array->multidim_array_values
+                        : target_array->array_values;
                 if (effective_index < 0 ||
-                    effective_index >= static_cast<int64_t>(
-                                           target_array->array_values.size())) {
+                    effective_index >= static_cast<int64_t>(cells.size())) {
                     throw std::runtime_error(
                         "Pointer array index out of bounds in assignment");
                 }
-                target_array->array_values[effective_index] = value;
+                cells[effective_index] = value;
             }
 
             debug_msg(DebugMsgId::ARRAY_ELEMENT_ASSIGN_SUCCESS);
